@@ -197,6 +197,138 @@ fn str_list(v: Option<&Value>) -> Vec<String> {
         .unwrap_or_default()
 }
 
+/// `cvharness restore1 <arch> <band> <dest> <subtree|-> <overwrite 0|1> [excl...]`: one plain restore with no
+/// hooks, run as a child process under strace. Prints one JSON line with the outcome.
+pub fn restore1(args: &[String]) {
+    install_panic_hook();
+    let arch = PathBuf::from(&args[0]);
+    let band: i64 = args[1].parse().unwrap();
+    let dest = PathBuf::from(&args[2]);
+    let subtree = if args[3] == "-" { String::new() } else { args[3].clone() };
+    let overwrite = args[4] == "1";
+    let excl: Vec<String> = args[5..].to_vec();
+    let mon = TestMonitor::arc();
+    let mon2 = mon.clone();
+    let out = run_call("ct", &mon, || async move {
+        let archive = Archive::open(Transport::local(&arch)).await.map_err(|e| err_name(&e))?;
+        let options = RestoreOptions {
+            exclude: Exclude::from_strings(excl.iter()).map_err(|e| err_name(&e))?,
+            only_subtree: if subtree.is_empty() { None } else { Some(Apath::from(subtree.as_str())) },
+            overwrite,
+            band_selection: Runner::policy(band),
+            change_callback: None,
+            inject_failures: HashMap::new(),
+        };
+        conserve::restore(&archive, &dest, options, mon2).await.map_err(|e| err_name(&e))
+    });
+    println!("{}", json!({"res": out.res, "panic": out.panic, "pmsg": out.panic_msg, "timeout": out.timeout, "mon_list": out.mon_errors}));
+}
+
+fn unescape_c(s: &str) -> Vec<u8> {
+    let b = s.as_bytes();
+    let mut out = Vec::new();
+    let mut i = 0;
+    while i < b.len() {
+        if b[i] == b'\\' && i + 1 < b.len() {
+            let c = b[i + 1];
+            if c.is_ascii_digit() {
+                let mut v: u32 = 0;
+                let mut j = i + 1;
+                let mut n = 0;
+                while j < b.len() && n < 3 && (b'0'..=b'7').contains(&b[j]) {
+                    v = v * 8 + (b[j] - b'0') as u32;
+                    j += 1;
+                    n += 1;
+                }
+                out.push(v as u8);
+                i = j;
+                continue;
+            }
+            out.push(match c {
+                b'n' => b'\n',
+                b't' => b'\t',
+                b'r' => b'\r',
+                other => other,
+            });
+            i += 2;
+        } else {
+            out.push(b[i]);
+            i += 1;
+        }
+    }
+    out
+}
+
+/// Quoted strings of one strace line's argument list.
+fn quoted(args: &str) -> Vec<Vec<u8>> {
+    let mut v = Vec::new();
+    let b = args.as_bytes();
+    let mut i = 0;
+    while i < b.len() {
+        if b[i] == b'"' {
+            let mut j = i + 1;
+            while j < b.len() && !(b[j] == b'"' && b[j - 1] != b'\\') {
+                j += 1;
+            }
+            v.push(unescape_c(&args[i + 1..j.min(args.len())]));
+            i = j + 1;
+        } else {
+            i += 1;
+        }
+    }
+    v
+}
+
+/// Path-taking system calls of a traced restore that create or modify something:
+/// {call, rel (components below the destination), inside, nofollow, ok}.
+fn parse_strace(text: &str, dest: &Path) -> Vec<Value> {
+    let destb = dest.as_os_str().to_string_lossy().to_string().into_bytes();
+    let mut out = Vec::new();
+    for line in text.lines() {
+        let line = line.trim_start_matches(|c: char| c.is_ascii_digit() || c == ' ');
+        let Some(par) = line.find('(') else { continue };
+        let call = &line[..par];
+        let Some(eq) = line.rfind(" = ") else { continue };
+        let args = &line[par + 1..eq];
+        let ret = line[eq + 3..].trim();
+        let ok = !ret.starts_with('-');
+        let qs = quoted(args);
+        let (paths, nofollow): (Vec<&Vec<u8>>, bool) = match call {
+            "chmod" | "chown" | "utimes" | "truncate" | "creat" | "mkdir" | "rmdir" | "unlink" => (qs.iter().take(1).collect(), false),
+            "lchown" => (qs.iter().take(1).collect(), true),
+            "fchmodat" | "fchownat" | "utimensat" | "mkdirat" | "unlinkat" => {
+                if qs.is_empty() {
+                    continue; // fd-based (futimens etc.)
+                }
+                (qs.iter().take(1).collect(), args.contains("AT_SYMLINK_NOFOLLOW") || call == "mkdirat" || call == "unlinkat")
+            }
+            "symlink" | "symlinkat" => (qs.iter().skip(1).take(1).collect(), true),
+            "rename" | "renameat" | "renameat2" | "link" | "linkat" => (qs.iter().collect(), true),
+            "open" | "openat" => {
+                if !(args.contains("O_WRONLY") || args.contains("O_RDWR") || args.contains("O_CREAT") || args.contains("O_TRUNC")) {
+                    continue;
+                }
+                (qs.iter().take(1).collect(), args.contains("O_NOFOLLOW"))
+            }
+            _ => continue,
+        };
+        for p in paths {
+            if p.starts_with(b"/dev/") || p.starts_with(b"/proc/") {
+                continue;
+            }
+            let inside = p.starts_with(&destb) && (p.len() == destb.len() || p[destb.len()] == b'/');
+            let rel: Vec<Vec<u8>> = if inside {
+                p[destb.len()..].split(|c| *c == b'/').filter(|c| !c.is_empty()).map(|c| c.to_vec()).collect()
+            } else {
+                vec![]
+            };
+            out.push(json!({"call": call, "rel": rel, "inside": inside, "nofollow": nofollow, "ok": ok,
+                            "path": String::from_utf8_lossy(p)}));
+        }
+    }
+    out
+}
+
 /// The documented meaning of one exclusion pattern on one path, computed with globset directly:
 /// a leading '/' anchors at the tree root, otherwise the pattern matches at any depth
 /// (doc of src/excludes.rs); separators are literal.
@@ -591,7 +723,7 @@ impl Runner {
         icpt.issued().0
     }
 
-    fn policy(band: i64) -> BandSelectionPolicy {
+    pub fn policy(band: i64) -> BandSelectionPolicy {
         match band {
             -1 => BandSelectionPolicy::LatestClosed,
             -2 => BandSelectionPolicy::Latest,
@@ -624,6 +756,8 @@ impl Runner {
         let outside_before = if outside.exists() { tree::digest(&tree::project(&outside).unwrap()) } else { String::new() };
         let paths = self.archive_paths();
         let mfacts = match_facts(&excl, &paths);
+        let traced = st.get("strace").and_then(|x| x.as_bool()).unwrap_or(false);
+        let mut syscalls: Vec<Value> = Vec::new();
         let icpt = self.reader_icpt();
         let mon = TestMonitor::arc();
         let t = self.transport(icpt);
@@ -633,7 +767,49 @@ impl Runner {
         let subtree2 = subtree.clone();
         let picked: Arc<Mutex<i64>> = Arc::new(Mutex::new(-1));
         let picked2 = picked.clone();
-        let out = run_call(&self.rt_flavor, &mon, || async move {
+        let out = if traced {
+            // the restore runs in a child process under strace; every path-taking call is recorded
+            let sfile = self.fresh("strace");
+            let exe = std::env::current_exe().unwrap();
+            let mut cmd = std::process::Command::new("strace");
+            cmd.args(["-f", "-qq", "-s", "4096", "-e",
+                      "trace=chmod,fchmodat,chown,lchown,fchownat,utimensat,utimes,symlink,symlinkat,mkdir,mkdirat,openat,open,creat,unlink,unlinkat,rmdir,rename,renameat,renameat2,link,linkat,truncate",
+                      "-o"]).arg(&sfile).arg(&exe).arg("restore1").arg(&self.arch).arg(band.to_string()).arg(&dest)
+               .arg(if subtree.is_empty() { "-" } else { subtree.as_str() }).arg(if overwrite { "1" } else { "0" }).args(&excl);
+            let start = Instant::now();
+            let o = cmd.output();
+            let mut co = CallOut { val: None, res: "err:Strace".into(), panic: false, panic_msg: String::new(), timeout: false, mon_errors: vec![], ms: 0 };
+            if let Ok(o) = o {
+                let so = String::from_utf8_lossy(&o.stdout);
+                if let Some(line) = so.lines().last() {
+                    if let Ok(v) = serde_json::from_str::<Value>(line) {
+                        co.res = v["res"].as_str().unwrap_or("err:Strace").to_string();
+                        co.panic = v["panic"].as_bool().unwrap_or(false);
+                        co.panic_msg = v["pmsg"].as_str().unwrap_or("").to_string();
+                        co.timeout = v["timeout"].as_bool().unwrap_or(false);
+                        co.mon_errors = v["mon_list"].as_array().map(|a| a.iter().filter_map(|x| x.as_str().map(|s| s.to_string())).collect()).unwrap_or_default();
+                        if co.res == "ok" {
+                            co.val = Some(());
+                        }
+                    }
+                }
+            }
+            co.ms = start.elapsed().as_millis() as u64;
+            syscalls = parse_strace(&fs::read_to_string(&sfile).unwrap_or_default(), &dest);
+            let _ = fs::remove_file(&sfile);
+            // which band "latest" resolves to, asked separately (not traced)
+            let t3 = Transport::local(&self.arch);
+            let mon3 = TestMonitor::arc();
+            let pk = picked.clone();
+            let _ = run_call("ct", &mon3, || async move {
+                let archive = Archive::open(t3).await.map_err(|e| err_name(&e))?;
+                if let Ok(id) = archive.resolve_band_id(Self::policy(band)).await {
+                    *pk.lock().unwrap() = id.to_string()[1..].parse::<i64>().unwrap_or(-1);
+                }
+                Ok(())
+            });
+            co
+        } else { run_call(&self.rt_flavor, &mon, || async move {
             let archive = Archive::open(t).await.map_err(|e| err_name(&e))?;
             if let Ok(id) = archive.resolve_band_id(Self::policy(band)).await {
                 *picked2.lock().unwrap() = id.to_string()[1..].parse::<i64>().unwrap_or(-1);
@@ -647,7 +823,7 @@ impl Runner {
                 inject_failures: HashMap::new(),
             };
             conserve::restore(&archive, &dest2, options, mon2).await.map_err(|e| err_name(&e))
-        });
+        }) };
         let restored = tree::project(&dest).unwrap_or_default();
         let dest_after = if dest_kind == "nonempty" { tree::digest(&restored) } else { String::new() };
         let outside_after = if outside.exists() { tree::digest(&tree::project(&outside).unwrap()) } else { String::new() };
@@ -656,7 +832,8 @@ impl Runner {
             "overwrite": overwrite, "dest": dest_kind, "res": out.res, "panic": out.panic, "pmsg": out.panic_msg, "timeout": out.timeout,
             "mon_errors": out.mon_errors.len(), "mon_list": out.mon_errors,
             "tree": tree::tree_json(&restored), "entries": [], "quick": false, "versions": [], "changes": [],
-            "dest_unchanged": dest_before == dest_after, "outside_unchanged": outside_before == outside_after, "ms": out.ms}));
+            "dest_unchanged": dest_before == dest_after, "outside_unchanged": outside_before == outside_after, "ms": out.ms,
+            "traced": traced, "syscalls": syscalls}));
         tree::remove_tree(&dest);
     }
 
